@@ -321,3 +321,65 @@ def lexeme_stream(rng, n, maxlen=7):
         if is_macro_free(s):
             out.append(s)
     return out
+
+
+# ------------------------------------------------------------------ numeric literal spellings (C08)
+NUM_EDGE = ["0", "00", "1", "9", "10", "255", "4294967295", "4294967296", "9007199254740992", "9007199254740993", "9007199254740995",
+            "18446744073709551615", "18446744073709551616", "18446744073709551617", "99999999999999999999", "184467440737095516150",
+            "0.1", "0.5", ".5", "5.", "1.0", "0.3", "2.5", "1.7976931348623157e308", "1.7976931348623158e308", "1.7976931348623159e308", "1.8e308",
+            "1e308", "1e309", "2e308", "4.9e-324", "2.4703282292062327e-324", "2.4703282292062328e-324", "2.5e-324", "5e-324", "1e-323", "2.2250738585072014e-308",
+            "2.2250738585072011e-308", "2.225073858507201e-308", "1e-400", "1e400", "1e-1000000", "1e1000000", "1e9999999", "1e-9999999", "0e5", "0.0e-5", "00000.000e+00009",
+            "1e0", "1e+0", "1e-0", "1E5", "1e05", "1e005", "123456789012345678901234567890", "123456789012345678901234567890.123456789012345678901234567890",
+            "0.000000000000000000000000000001", "9007199254740993.0", "9007199254740992.5", "9007199254740993.5", "4503599627370496.5", "4503599627370497.5",
+            "0.1e1", "1.e5", "1.e", "1e", "1e+", "1e-", "1.5e", ".e5", "1..2", "1.2.3", "1e5.5", "1e5e5",
+            "0x", "1x", "9x", "0fx", "0FX", "0ffx", "ffx", "12x", "0ax", "1ex", "1e5x", "0e0x", "0ffffffffffffffffx", "0ffffffffffffffffX", "1ffffffffffffffffx", "0fffffffffffffffffx",
+            "10000000000000000x", "0ffffffffffffffff.8x", "123abcx", "0abcdefx", "0ABCDEFx", "1e1x", "0dx", "1dx", "09afx", "0g", "0fg", "1ey", "12abc", "0abx1", "1e-5x", "1.5x", "0.fx"]
+
+
+def numeric_spelling(rng):
+    k = rng.below(8)
+    if k == 0:
+        return rng.choice(NUM_EDGE)
+    ip = _digits(rng, 0, 20) if rng.below(4) else _digits(rng, 1, 3)
+    fp = _digits(rng, 0, 20) if rng.below(3) else ""
+    s = ip
+    if rng.below(2):
+        s += "." + fp
+    if s in ("", "."):
+        s = "1" + s
+    if rng.below(3) == 0:
+        s += rng.choice("eE") + rng.choice(["", "+", "-"]) + (_digits(rng, 1, 3) if rng.below(5) else _digits(rng, 0, 8))
+    if k == 1:     # 64-bit boundary neighbourhoods
+        base = rng.choice([2 ** 64, 2 ** 63, 2 ** 53, 2 ** 32, 10 ** 19, 10 ** 20]) + rng.below(5) - 2
+        s = str(base) + rng.choice(["", "", ".", ".0", "e0", "x"])
+    if k == 2:     # halfway cases between adjacent doubles
+        m = (1 << 52) + rng.below(1 << 20)
+        sh = rng.below(12)
+        v = (2 * m + 1) << sh          # exactly representable in decimal, halfway between two doubles at 54+sh bits
+        s = str(v) + rng.choice(["", ".0", ".00000000000000000000001", "e0"])
+    if k == 3:     # hex
+        s = rng.choice("0123456789") + "".join(rng.choice("0123456789abcdefABCDEF") for _ in range(rng.below(18))) + rng.choice(["x", "X", "x", "", ".", ".8x"])
+    if k == 4:     # subnormal / overflow region
+        s = rng.choice(["1", "2", "4", "9", "17976931348623157", "49", "24703282292062327", "22250738585072014"]) + rng.choice(["", ".", ".5"]) + "e" + rng.choice(["-", "+", ""]) + str(290 + rng.below(40))
+    return s
+
+
+NUM_CONTEXTS = [("", ";"), ("x=", ";"), ("%eval(", ")"), ("%sysevalf(", ")"), ("%sysfunc(f(", "))"), ("%if ", " %then a;"), ("%let a=", ";"),
+                ("%do i=", " %to 3;"), ("%m(", ")"), ("%str(", ")"), ("\"", "\""), ("%substr(a,", ")"), ("%scan(a,", ")"), ("%qsysfunc(g(1,", "))")]
+
+
+def numeric_stream(rng, n):
+    out = []
+    for _ in range(n):
+        pre, post = rng.choice(NUM_CONTEXTS) if rng.below(3) else ("", rng.choice([";", " ", "", "+1", ")", ","]))
+        s = numeric_spelling(rng)
+        glue = rng.choice(["", "", "", " ", "+", "-", "*", "eq ", "<"])
+        if glue and rng.below(2):
+            s = s + glue + numeric_spelling(rng)
+        out.append(pre + s + post)
+    for e in NUM_EDGE:
+        out.append(e)
+        out.append(e + ";")
+        out.append("%eval(" + e + ")")
+        out.append("%sysevalf(" + e + ")")
+    return out
